@@ -4,6 +4,7 @@ package main
 // c18.go / c19.go rules that need the lock engine live here too.
 
 import (
+	"reflect"
 	"fmt"
 	"go/token"
 	"go/types"
@@ -800,6 +801,40 @@ func checkC19(R *Run) {
 	}
 	R.floor("reload-section", 4)
 
+	// load-bytes-preserved: the text served is the file's bytes with line breaks swapped, nothing else
+	R.rule("load-bytes-preserved", "what Reload / NewAgreement store as the in-memory text is the bytes read from the file passed only through strings.ReplaceAll / bytes.ReplaceAll and string<->[]byte conversions: no rune-wise or otherwise lossy rewriting (bytes that are not valid UTF-8, as in MacRoman texts, stay what they are)")
+	for _, it := range []struct{ fn, data string }{
+		{"(*mobius.FlatNews).Reload", "mobius.FlatNews.data"},
+		{"(*mobius.Agreement).Reload", "mobius.Agreement.data"},
+		{"mobius.NewAgreement", "mobius.Agreement.data"},
+	} {
+		fn := R.mustFn(it.fn)
+		if fn == nil {
+			continue
+		}
+		n := 0
+		eachInstr(fn, func(ins ssa.Instruction) {
+			st, ok := ins.(*ssa.Store)
+			if !ok {
+				return
+			}
+			fa, ok := st.Addr.(*ssa.FieldAddr)
+			if !ok {
+				return
+			}
+			if f, _ := fieldOf(fa); f != it.data {
+				return
+			}
+			n++
+			good, why := bytesPreserved(st.Val, 0)
+			R.check(good, "load-bytes-preserved", fmt.Sprintf("%s: store of the text #%d", it.fn, n), P.ipos(st), "file bytes through ReplaceAll and conversions only", "the text kept in memory is not the file's bytes with line breaks swapped: "+why+" — bytes that are not valid UTF-8 are served (and, for the board, written back to the file) changed")
+		})
+		if n == 0 {
+			R.und("load-bytes-preserved", it.fn, P.pos(fn.Pos()), "no store of the in-memory text found")
+		}
+	}
+	R.floor("load-bytes-preserved", 3)
+
 	// post-format: the line-break conversion covers the user's text
 	R.rule("post-format", "what the post handler writes to the board, announces and stores is the result of replacing line feeds by carriage returns in the *formatted* post, i.e. the conversion's input contains the request's text")
 	if postHandler != nil {
@@ -955,6 +990,26 @@ func checkC18(R *Run) {
 		}
 	}
 	R.floor("news-lockset", 3)
+
+	// path resolution (shared with C05) and the persisted shape of the tree
+	R.ruleKindTargetAgree()
+	R.rule("tree-tags", "the map fields of the persisted news tree (ThreadedNews.Categories, NewsCategoryListData15.Articles / SubCats) are always written: their yaml tags carry no omitempty, so an empty grouping reloads with allocated (non-nil) maps and can be posted into")
+	for _, it := range []struct{ typ, field string }{{"ThreadedNews", "Categories"}, {"NewsCategoryListData15", "Articles"}, {"NewsCategoryListData15", "SubCats"}} {
+		tn, _ := P.Hot.Pkg.Scope().Lookup(it.typ).(*types.TypeName)
+		good, tag := false, "?"
+		if tn != nil {
+			if st, ok := tn.Type().Underlying().(*types.Struct); ok {
+				for i := 0; i < st.NumFields(); i++ {
+					if st.Field(i).Name() == it.field {
+						tag = reflect.StructTag(st.Tag(i)).Get("yaml")
+						good = !strings.Contains(tag, "omitempty") && tag != "-"
+					}
+				}
+			}
+		}
+		R.check(good, "tree-tags", "hotline."+it.typ+"."+it.field, "hotline/news.go", "yaml tag "+tag, "the map is left out of the file when empty (yaml tag "+tag+"): after a reload it is nil and the next post or create into that grouping panics or is lost")
+	}
+	R.floor("tree-tags", 3)
 
 	// single-copy: what the store answers comes from the one tree that the mutators change and persist
 	R.rule("single-copy", "every value a method of the threaded news store returns is derived from the ThreadedNews tree (or from no store field at all), never from another field of the store: there is no second, separately invalidated copy (memo, cache, index) that can go stale when an ancestor bundle is deleted or the file is reloaded")
@@ -1166,4 +1221,44 @@ func init() {
 	register("C14", checkC14)
 	register("C18", checkC18)
 	register("C19", checkC19)
+}
+
+// bytesPreserved: v is the result of os.ReadFile passed only through ReplaceAll and byte/string conversions.
+func bytesPreserved(v ssa.Value, depth int) (bool, string) {
+	if depth > 12 {
+		return false, "derivation too deep"
+	}
+	switch x := v.(type) {
+	case *ssa.Convert:
+		return bytesPreserved(x.X, depth+1)
+	case *ssa.ChangeType:
+		return bytesPreserved(x.X, depth+1)
+	case *ssa.Phi:
+		for _, e := range x.Edges {
+			if ok, why := bytesPreserved(e, depth+1); !ok {
+				return false, why
+			}
+		}
+		return true, ""
+	case *ssa.Extract:
+		if c, ok := x.Tuple.(*ssa.Call); ok && x.Index == 0 {
+			if n := calleeName(&c.Call); n == "os.ReadFile" || n == "io.ReadAll" {
+				return true, ""
+			}
+		}
+		return false, "derived from " + x.Tuple.Name()
+	case *ssa.Call:
+		switch calleeName(&x.Call) {
+		case "strings.ReplaceAll", "bytes.ReplaceAll":
+			return bytesPreserved(x.Call.Args[0], depth+1)
+		}
+		return false, "passes through " + calleeName(&x.Call)
+	case *ssa.UnOp:
+		if a, ok := x.X.(*ssa.Alloc); ok && x.Op == token.MUL {
+			if val, single := singleStore(a); single {
+				return bytesPreserved(val, depth+1)
+			}
+		}
+	}
+	return false, "an unrecognised step (" + v.Name() + ")"
 }
